@@ -128,10 +128,28 @@ class Ctx:
                 again.append(i)
         ex2.shutdown(wait=False, cancel_futures=True)
         if again:
+            # third opinion, one job at a time in a pool of its own (a machine under memory or CPU
+            # pressure can lose workers of two pools for reasons that have nothing to do with the job)
+            still = []
+            for i in again:
+                ex3 = ProcessPoolExecutor(1, mp_context=mpctx, initializer=_worker.init, initargs=(envd,))
+                f = ex3.submit(_worker.call, func, argslist[i])
+                try:
+                    results[i] = f.result(timeout=limit)
+                except (BrokenProcessPool, _cf.TimeoutError):
+                    still.append(i)
+                ex3.shutdown(wait=False, cancel_futures=True)
+                if still:
+                    break
+            if not still:
+                print("  note: worker processes died in two pools; all %d jobs completed when run one at a "
+                      "time" % len(again), flush=True)
+            again = still
+        if again:
             self.timed_out = True
             results[again[0]] = {"evals": 0, "viol": [{
                 "sig": "%s|process-died|%s" % (self.pid, func.split(":")[1]),
-                "desc": "worker processes running these jobs died abruptly in two independent pools "
+                "desc": "worker processes running these jobs died abruptly in two independent pools and alone "
                         "(abort/segfault/heap corruption in native code of the tree under test); "
                         "%d jobs were pending, e.g. %s %s" % (len(again), func, str(argslist[again[0]])[:200]),
                 "replay": {"env": {"fw": envd.get("fw"), "nvx": str(envd.get("nvx"))},
